@@ -167,8 +167,8 @@ def e1(prog: Program, chk: Check) -> None:
     chk.extra["unitary_consumers"] = consumers
 
 
-def e2(prog: Program, chk: Check) -> None:
-    chk.rule("E2", "each consumer builds the pair left_right_super(U, U^dagger) / "
+def e2(prog: Program, chk: Check, rule: str = "E2") -> None:
+    chk.rule(rule, "each consumer builds the pair left_right_super(U, U^dagger) / "
              "left_right_super(U^dagger, U): the one named *_dagg / transform_in carries "
              "(U^dagger, U), the one named _super_u / transform_out carries (U, U^dagger); both "
              "are used", floor=6)
@@ -176,18 +176,28 @@ def e2(prog: Program, chk: Check) -> None:
              "pt_tempo:PtTempo._init_simple_process_tensor",
              "pt_tempo:PtTempo._init_file_process_tensor"]
     def kind_of(v: ast.AST) -> Optional[str]:
-        while isinstance(v, ast.Attribute) and v.attr == "T":
-            v = v.value
+        # the transposition of the superoperator matters: LRS(A, B)^T = LRS(A^T, B^T) is a
+        # different map unless U is real
+        par = 0
+        while True:
+            if isinstance(v, ast.Attribute) and v.attr == "T":
+                v, par = v.value, par + 1
+            elif isinstance(v, ast.Call) and isinstance(v.func, ast.Attribute) \
+                    and v.func.attr == "transpose" and not v.args:
+                v, par = v.func.value, par + 1
+            else:
+                break
         if not (isinstance(v, ast.Call) and (dotted(v.func) or "").split(".")[-1]
                 == "left_right_super" and len(v.args) == 2):
             return None
         a, b = v.args
         ab, bb = adjoint_base(a), adjoint_base(b)
+        tr = "^T" if par % 2 else ""
         if ab is not None and bb is None and norm(ab) == norm(b):
-            return "(U^dagger, U)"
+            return "(U^dagger, U)" + tr
         if bb is not None and ab is None and norm(bb) == norm(a):
-            return "(U, U^dagger)"
-        return f"({norm(a)}, {norm(b)})"
+            return "(U, U^dagger)" + tr
+        return f"({norm(a)}, {norm(b)})" + tr
 
     # the back end stores the pair in two attributes; the direction is in the attribute name
     u = prog.unit(sites[0])
@@ -205,12 +215,12 @@ def e2(prog: Program, chk: Check) -> None:
             continue
         found += 1
         want = "(U^dagger, U)" if tname.endswith("_dagg") else "(U, U^dagger)"
-        chk.add("E2", u, f"{tname} = left_right_super{kind}", kind == want,
+        chk.add(rule, u, f"{tname} = left_right_super{kind}", kind == want,
                 "" if kind == want else
                 f"expected {want}: the basis change into the diagonal basis and back are "
                 f"not mutual adjoints", st)
     if found != 2:
-        chk.add("E2", u, "pair of left_right_super constructions", False,
+        chk.add(rule, u, "pair of left_right_super constructions", False,
                 f"{found} constructions found, expected 2")
     # PT-TEMPO hands the pair to the process tensor; the direction is in the keyword
     for q in sites[1:]:
@@ -220,11 +230,11 @@ def e2(prog: Program, chk: Check) -> None:
         ctor = [c for c in walk_local(u.node) if isinstance(c, ast.Call)
                 and call_name(c) in ("SimpleProcessTensor", "FileProcessTensor")]
         if len(ctor) != 1:
-            raise AnalysisError(f"E2: {q} no longer constructs one process tensor")
+            raise AnalysisError(f"{rule}: {q} no longer constructs one process tensor")
         kw = {k.arg: k.value for k in ctor[0].keywords}
-        for key, want in (("transform_in", "(U^dagger, U)"), ("transform_out", "(U, U^dagger)")):
+        for key, want in (("transform_in", "(U^dagger, U)^T"), ("transform_out", "(U, U^dagger)^T")):
             if key not in kw:
-                chk.add("E2", u, f"{call_name(ctor[0])}({key}=<missing>)", False,
+                chk.add(rule, u, f"{call_name(ctor[0])}({key}=<missing>)", False,
                         "the process tensor is built without its basis change", ctor[0])
                 continue
             o = origin(du1, du1.node_of(ctor[0]), kw[key])
@@ -234,22 +244,28 @@ def e2(prog: Program, chk: Check) -> None:
             alts = [x for x in alts if not (isinstance(x, ast.Constant) and x.value is None)]
             kinds = {kind_of(x) for x in alts}
             kind = kinds.pop() if len(kinds) == 1 else None
-            chk.add("E2", u, f"{call_name(ctor[0])}({key} = left_right_super{kind})",
+            chk.add(rule, u, f"{call_name(ctor[0])}({key} = left_right_super{kind})",
                     kind == want, "" if kind == want else
                     f"expected {want}: in/out transforms are swapped or not mutual adjoints",
                     ctor[0])
     # both superoperators are applied to the dk=0 tensor / handed over under the right keyword
     u = prog.unit(sites[0])
-    uses = {"self._super_u": 0, "self._super_u_dagg": 0}
+    uses = {"self._super_u": [], "self._super_u_dagg": []}
     for c in walk_local(u.node):
         if isinstance(c, ast.Call) and (dotted(c.func) or "").split(".")[-1] == "dot":
             for a in c.args:
-                base = a.value if isinstance(a, ast.Attribute) and a.attr == "T" else a
+                base, par = a, 0
+                while isinstance(base, ast.Attribute) and base.attr == "T":
+                    base, par = base.value, par + 1
                 if dotted(base) in uses:
-                    uses[dotted(base)] += 1
-    ok = all(v == 1 for v in uses.values())
-    chk.add("E2", u, f"dk=0 tensor rotated once by each of {sorted(uses)}", ok,
-            "" if ok else f"use counts {uses}")
+                    uses[dotted(base)].append(par % 2)
+    # as right factors of np.dot: the input side takes LRS(U^dagger, U) as it is, the output
+    # side LRS(U, U^dagger) transposed (same convention as transform_in / transform_out)
+    ok = uses == {"self._super_u": [1], "self._super_u_dagg": [0]}
+    chk.add(rule, u, f"dk=0 tensor rotated once by each of {sorted(uses)}", ok,
+            "super_u_dagg as it is, super_u transposed" if ok else
+            f"uses (transposed?) {uses}: expected one use of self._super_u_dagg untransposed and "
+            f"one of self._super_u transposed")
 
 
 def e4(prog: Program, chk: Check) -> None:
@@ -270,6 +286,17 @@ def e4(prog: Program, chk: Check) -> None:
                 f"{len(sigs)} path(s)" if ok else
                 f"a path returns {bad}: for a unitary that is not symmetric the process tensor "
                 f"is rotated with U^T instead of U^dagger (or onto the wrong leg)")
+
+
+def e5(prog: Program, chk: Check) -> None:
+    chk.rule("E5", "the basis change is applied exactly once: import copies the RAW tensors of the "
+             "file next to the file's transforms, and export writes raw tensors next to the "
+             "transforms (a transformed tensor stored with its transform is rotated twice by the "
+             "next get_mpo_tensor)", floor=2)
+    from rules.c16 import raw_discipline
+    for (u, construct, ok, detail, node) in raw_discipline(prog):
+        chk.saw(u)
+        chk.add("E5", u, construct, ok, detail, node)
 
 
 def e3(prog: Program, chk: Check) -> None:
@@ -351,3 +378,4 @@ def run(prog: Program, chk: Check) -> None:
     chk.call(e2, prog, chk)
     chk.call(e3, prog, chk)
     chk.call(e4, prog, chk)
+    chk.call(e5, prog, chk)
